@@ -113,9 +113,13 @@ Section MapReq.
     | Some v => match shape_of v with Some sh => nth_error sh p | None => None end
     | None => None
     end.
+  (* x is an index of the outputs of f's MapSpec; a and b are root array inputs that both carry x; the sizes of the
+     (first) axes that carry x differ.  (An index written twice inside ONE array, x[i, i], is compared at its first
+     position only - as MapSpec.shape does; the generators never write that.) *)
   Definition F_zip : Prop :=
     exists f m x a pa b pb da db,
-      In f fs /\ rspec f = Some m /\ In (a, pa) (carriers m x) /\ In (b, pb) (carriers m x)
+      In f fs /\ rspec f = Some m /\ In x (output_indices m) /\ In a (ins m) /\ In b (ins m)
+      /\ index_of x (axes a) = Some pa /\ index_of x (axes b) = Some pb
       /\ is_root fs (aname a) = true /\ is_root fs (aname b) = true
       /\ dim_of a pa = Some da /\ dim_of b pb = Some db /\ da <> db.
   Definition F_storage : Prop := exists n, In n (storage_names q) /\ ~ In n (q_registry q).
@@ -136,11 +140,14 @@ Definition rank_b (q : mreq) : bool :=
 Definition zip_b (q : mreq) : bool :=
   forallb (fun f => match rspec f with
      | Some m => forallb (fun x =>
-           let dims := flat_map (fun ap => if is_root (q_funcs q) (aname (fst ap))
-                                           then match dim_of q (fst ap) (snd ap) with Some d => [d] | None => [] end
-                                           else []) (carriers m x) in
+           let dims := flat_map (fun a => if is_root (q_funcs q) (aname a)
+                                          then match index_of x (axes a) with
+                                               | Some p => match dim_of q a p with Some d => [d] | None => [] end
+                                               | None => []
+                                               end
+                                          else []) (ins m) in
            match dims with [] => true | d :: rest => forallb (Nat.eqb d) rest end)
-         (StrOrd.dedup (input_indices_list m))
+         (output_indices m)
      | None => true end) (q_funcs q).
 
 Definition wfm_b (q : mreq) : bool :=
